@@ -131,7 +131,9 @@ class WorkflowBuilder(WorkflowBase):
             New task
         """
         mapping = {task: new_task}
-        nx.relabel_nodes(self._g, mapping, copy=False)
+        # NOTE: Relabeling in place would remove the node and add the new one last,
+        # i.e. reorder the arguments of successor tasks. The copy keeps all orders.
+        self._g = nx.relabel_nodes(self._g, mapping, copy=True)
 
     def insert_workflow(
         self, other: Workflow, predecessors: Optional[Union[Task, list[Task]]] = None
